@@ -96,7 +96,7 @@ def p_grid(quick):
          1 - 1e-6, 1 - 1e-9, 1 - 1e-12}
     if not quick:
         g.update(i / 64 for i in range(65))
-    return sorted(g)
+    return sorted(g) + [0, 1, True, False]  # p given as int / bool is still the proportion 0 or 1
 
 
 def conf_grid(quick):
